@@ -875,6 +875,16 @@ std::size_t CppCheck::calculateHash(const Preprocessor& preprocessor, const std:
         toolinfo << a.args;
     }
     toolinfo << mSettings.premiumArgs;
+    // further options that change the findings of a file
+    toolinfo << (mSettings.certainty.isEnabled(Certainty::inconclusive) ? 'I' : ' ');
+    toolinfo << ' ' << mSettings.checks.intValue();
+    for (const std::string &undef : mSettings.userUndefs)
+        toolinfo << " -U" << undef;
+    toolinfo << ' ' << static_cast<int>(mSettings.standards.c) << ' ' << static_cast<int>(mSettings.standards.cpp);
+    toolinfo << ' ' << static_cast<int>(mSettings.platform.type) << ' ' << mSettings.platform.sizeof_int << ' ' << mSettings.platform.sizeof_long
+             << ' ' << mSettings.platform.sizeof_pointer << ' ' << mSettings.platform.defaultSign;
+    for (const std::string &lib : mSettings.libraries)
+        toolinfo << " --library=" << lib;
     // TODO: do we need to add more options?
     mSuppressions.nomsg.dump(toolinfo, filePath);
     return preprocessor.calculateHash(toolinfo.str());
